@@ -15,6 +15,24 @@ def enc_jmp(op, k):
     return w1.to_bytes(2, "little") + (k & 0xFFFF).to_bytes(2, "little")
 
 
+STRS = ["a", "ab", "abc", "µs", "25°C", "é", "€uro", "日本", "x😀", "naïve café", ""]
+
+
+def db_operands(rng):
+    """operands of a .db line: numbers and strings (also non-ASCII: a string occupies its UTF-8 bytes) -> (bytes, text)"""
+    bs, parts = bytearray(), []
+    for _ in range(rng.randrange(1, 6)):
+        if rng.random() < 0.25:
+            t = rng.choice(STRS)
+            parts.append('"%s"' % t)
+            bs += t.encode("utf-8")
+        else:
+            b = rng.randrange(1, 255)
+            parts.append(str(b))
+            bs.append(b)
+    return bytes(bs), ", ".join(parts)
+
+
 def gen_case(rng, devs):
     dev = rng.choice(devs) if rng.random() < 0.5 else None
     ram_start = dev[2] if dev else 0x60
@@ -98,8 +116,8 @@ def gen_case(rng, devs):
                     code.extend(b"\x00\x91\x80\x00")
                     pos["c"] += 2
             elif c < 0.8:
-                bs = bytes(rng.randrange(1, 255) for _ in range(rng.randrange(1, 6)))
-                lines.append("  .db %s" % ", ".join(str(b) for b in bs))
+                bs, text = db_operands(rng)
+                lines.append("  .db " + text)
                 code.extend(bs + (b"\0" if len(bs) % 2 else b""))
                 pos["c"] += (len(bs) + 1) // 2
             else:
@@ -112,8 +130,8 @@ def gen_case(rng, devs):
         elif seg == "e":
             place(None)
             if rng.random() < 0.5:
-                bs = bytes(rng.randrange(1, 255) for _ in range(rng.randrange(1, 6)))
-                lines.append("  .db %s" % ", ".join(str(b) for b in bs))
+                bs, text = db_operands(rng)
+                lines.append("  .db " + text)
                 eep.extend(bs)
                 pos["e"] += len(bs)
             else:
